@@ -156,6 +156,8 @@ def apply_ref(d, op):
             d["pvals"]["pg"] = PVALS["pg"][op[2]]
         elif op[1] == "pc":
             d["pvals"]["pc_which"] = PVALS["pc"][op[2]]
+        elif op[1] == "pcq":
+            d["pvals"]["pcq"] = op[2]
     elif k == "set_value_cat":
         # one set_value call on vertcat(pg, <horizon parameter>)
         d["pvals"]["pg"] = op[1]
@@ -207,6 +209,8 @@ def apply_real(r, d, op):
     elif k == "set_value":
         if op[1] == "pg":
             st.set_value(s["pg"], PVALS["pg"][op[2]])
+        elif op[1] == "pcq":
+            st.set_value(s["pcq"], op[2])        # one scalar for the include_last parameter (next to a plain per-interval one)
         else:
             dd = dict(d)
             st.set_value(s["pc"], np.array(pc_value(d, PVALS["pc"][op[2]])).reshape(1, -1))
